@@ -4694,6 +4694,10 @@ class ResponseFuture(object):
         self._event.clear()
         self._final_result = _NOT_SET
         self._final_exception = None
+        # the timer of the previous page was cancelled when that page completed;
+        # free the slot and restart the clock so this page gets its own timeout
+        self._timer = None
+        self._start_time = time.time()
         self._start_timer()
         self.send_request()
 
